@@ -395,6 +395,11 @@ XPush(i) == PushCanon(KeyX(i))
 TSigGood(k) == SSig(k, CTX_SPK, 0, 0, 0)
 TapSigSet == {<<>>, TSigGood(1), TSigGood(2), TSigGood(0), SSig(1, CTX_SPK, 0, 1, 1), SSig(1, CTX_SPK, 0, 0, 1), SSig(1, CTX_SPK, 0, 4, 1), SSig(1, CTX_SPK, 0, 131, 1),
               SSig(1, CTX_SPK, 0, 2, 1), SSig(1, CTX_SPK, 2, 0, 0), SSig(1, 7, 0, 0, 0), Rep(7, 63), Rep(7, 64), Rep(7, 65), Rep(7, 66), <<1>>, SigGood(1, CTX_SPK)}
+\* tokens in front of the signature check of the OP_CODESEPARATOR-position rows
+CsToks == {<<OP_0, OP_IF>>, <<OP_1, OP_IF>>, <<OP_ELSE>>, <<OP_ENDIF>>, <<OP_NOP>>, <<1, 170>>, <<OP_CODESEPARATOR>>, <<OP_1, OP_DROP>>}
+CsPres == {<<OP_0, OP_IF, 1, 170, OP_NOP, OP_ENDIF, OP_CODESEPARATOR>>, <<OP_1, OP_IF, OP_ELSE, OP_NOP, OP_NOP, OP_ENDIF, OP_CODESEPARATOR>>,
+           <<OP_0, OP_IF, OP_0, OP_IF, OP_NOP, OP_ENDIF, OP_NOP, OP_ENDIF, OP_CODESEPARATOR>>, <<OP_CODESEPARATOR, OP_0, OP_IF, OP_CODESEPARATOR, OP_NOP, OP_ENDIF>>,
+           <<OP_0, OP_NOTIF, OP_CODESEPARATOR, OP_ELSE, OP_NOP, OP_CODESEPARATOR, OP_ENDIF>>}
 TapKeySet == {KeyX(1), KeyX(2), <<>>, <<1>>, KeyC(1), Rep(7, 32), Rep(7, 31), Sha256(<<>>)}
 \* EvalScript under SigVersion::TAPSCRIPT with a given validation weight budget
 GTapEval(I) ==
@@ -412,6 +417,14 @@ GTapEval(I) ==
   \/ (IF I THEN TRUE ELSE ch[1] = "tapeval4") /\ \E cp \in 0..4 :
         Sh(I, <<"tapeval4", cp>>) /\ (IF I THEN TRUE ELSE (\E pre \in {<<>>, <<OP_CODESEPARATOR>>, <<OP_1, OP_DROP, OP_CODESEPARATOR>>, <<OP_0, OP_IF, OP_CODESEPARATOR, OP_ENDIF>>, <<OP_CODESEPARATOR, OP_CODESEPARATOR>>} :
         Emit(<<"tapeval", <<SSig(1, CTX_SPK, cp, 0, 0)>>, pre \o XPush(1) \o <<OP_CHECKSIG>>, {}, 1000>>)))
+  \* the signed OP_CODESEPARATOR position counts EVERY decoded opcode and push, also those of branches that are not executed (BIP342):
+  \* every short program over conditionals, pushes, NOPs and separators in front of <key> CHECKSIG, with a real signature for every candidate position
+  \/ (IF I THEN TRUE ELSE ch[1] = "tapeval5") /\ \E x \in CsToks, cp \in 0..(IF Quick THEN 7 ELSE 9) :
+        Sh(I, <<"tapeval5", x, cp>>) /\ (IF I THEN TRUE ELSE (\E p \in SeqsUpTo(CsToks, 0, IF Quick THEN 2 ELSE 3), tail \in {<<OP_CHECKSIG>>, <<OP_CHECKSIGVERIFY, OP_1>>} :
+        (Quick => tail = <<OP_CHECKSIG>>) /\ Emit(<<"tapeval", <<SSig(1, CTX_SPK, cp, 0, 0)>>, x \o Flat(p) \o XPush(1) \o tail, {}, 1000>>)))
+  \/ (IF I THEN TRUE ELSE ch[1] = "tapeval6") /\ \E cp \in 0..9 :
+        Sh(I, <<"tapeval6", cp>>) /\ (IF I THEN TRUE ELSE (\E pre \in CsPres :
+        Emit(<<"tapeval", <<SSig(1, CTX_SPK, cp, 0, 0), <<>>>>, pre \o XPush(1) \o <<OP_CHECKSIGADD>>, {}, 1000>>)))
 InitTapEval == GTapEval(TRUE)
 
 TapLeafVer == 192
@@ -426,6 +439,10 @@ TapLeaves == {<<<<>>, <<OP_1>>>>, <<<<>>, <<OP_0>>>>, <<<<<<1>>>>, <<>>>>, <<<<>
               <<<<SSig(1, CTX_TAPSCRIPT + 100, 0, 0, 0)>>, XPush(1) \o <<OP_CHECKSIG>>>>,
               <<<<TS(2), TS(1)>>, XPush(1) \o <<OP_CHECKSIG>> \o XPush(2) \o <<OP_CHECKSIGADD, OP_2, OP_NUMEQUAL>>>>,
               <<<<TS(1)>>, <<OP_CODESEPARATOR>> \o XPush(1) \o <<OP_CHECKSIG>>>>, <<<<SSig(1, CTX_TAPSCRIPT, 1, 0, 0)>>, <<OP_CODESEPARATOR>> \o XPush(1) \o <<OP_CHECKSIG>>>>,
+              <<<<SSig(1, CTX_TAPSCRIPT, 6, 0, 0)>>, <<OP_0, OP_IF, 1, 170, OP_NOP, OP_ENDIF, OP_CODESEPARATOR>> \o XPush(1) \o <<OP_CHECKSIG>>>>,
+              <<<<SSig(1, CTX_TAPSCRIPT, 4, 0, 0)>>, <<OP_0, OP_IF, 1, 170, OP_NOP, OP_ENDIF, OP_CODESEPARATOR>> \o XPush(1) \o <<OP_CHECKSIG>>>>,
+              <<<<SSig(1, CTX_TAPSCRIPT, 5, 0, 0)>>, <<OP_1, OP_IF, OP_ELSE, OP_NOP, OP_ENDIF, OP_CODESEPARATOR>> \o XPush(1) \o <<OP_CHECKSIG>>>>,
+              <<<<SSig(1, CTX_TAPSCRIPT, 6, 0, 0)>>, <<OP_1, OP_IF, OP_ELSE, OP_NOP, OP_ENDIF, OP_CODESEPARATOR>> \o XPush(1) \o <<OP_CHECKSIG>>>>,
               <<<<TS(1)>>, PushCanon(<<1>>) \o <<OP_CHECKSIG>>>>, <<<<TS(1)>>, <<OP_0, OP_CHECKSIG>>>>,
               <<<<<<1>>>>, IfScript>>, <<<<<<2>>>>, IfScript>>, <<<<<<>>>>, IfScript>>, <<<<<<1, 0>>>>, IfScript>>,
               <<<<>>, <<OP_RESERVED>>>>, <<<<>>, <<OP_0, OP_RESERVED>>>>, <<<<>>, <<OP_RESERVED, 1>>>>, <<<<>>, <<5, OP_RESERVED>>>>, <<<<>>, <<OP_RETURN, 187>>>>, <<<<>>, <<OP_CAT>>>>,
